@@ -286,8 +286,19 @@ func handleUpload(ucfg *tconfig.Config, uploadBucket storage.BucketHandle) conte
 		if r.Method == "POST" {
 			ctx := r.Context()
 			var report telemetry.Report
-			if err := json.NewDecoder(r.Body).Decode(&report); err != nil {
+			dec := json.NewDecoder(r.Body)
+			if err := dec.Decode(&report); err != nil {
 				return content.Error(fmt.Errorf("invalid JSON payload: %v", err), http.StatusBadRequest)
+			}
+			// The report must be the whole body. Decode stops after the first
+			// JSON value, so read the rest: this applies the request size limit
+			// to all of the body and refuses trailing data.
+			rest, err := io.ReadAll(io.MultiReader(dec.Buffered(), r.Body))
+			if err != nil {
+				return content.Error(fmt.Errorf("invalid payload: %v", err), http.StatusBadRequest)
+			}
+			if len(strings.TrimSpace(string(rest))) > 0 {
+				return content.Error(errors.New("invalid JSON payload: trailing data after the report"), http.StatusBadRequest)
 			}
 			if err := validate(&report, ucfg); err != nil {
 				return content.Error(fmt.Errorf("invalid report: %v", err), http.StatusBadRequest)
